@@ -65,6 +65,13 @@ def gen_cases(tier, seed):
         mn, lit = RELATED[g % len(RELATED)]
         for opnd in r.sample([lit, lit + ",X", lit + ",PCR", "#" + lit, "[" + lit + "]", "[" + lit + ",Y]", "<" + lit, ">" + lit], 4):
             texts.append([" ORG $1000\n", " %s %s\n" % (mn, opnd), " RTS\n"])
+        # texts a tolerant front end might be tempted to tidy up IN PLACE (byte order mark, CR LF, tabs, trailing blanks, lower case):
+        # whatever it does with them, the caller's list must come back as it was and the outcome must not depend on history
+        base_ = texts[g % GROUP]
+        texts.append(["\ufeff" + base_[0]] + base_[1:])
+        texts.append([l.rstrip("\n") + "\r\n" for l in base_])
+        texts.append([l.rstrip("\n").replace(" ", "\t", 1) + "  \t\n" for l in base_])
+        texts.append([l.lower() if "FCC" not in l.upper() else l for l in base_] + ["\n", "   \n", "; trailing comment"])
         yield {"id": "group/%d" % g, "texts": texts}
     # include files that change between two assemblies in the same process (same name, same size, same second)
     for k in range(40 if thorough else 6):
